@@ -244,7 +244,7 @@ func (c *c01) RunDesc(desc json.RawMessage) engine.Result {
 		}
 	}
 	if len(cs.Devs) <= 1 {
-		res.Sample = sim.MustJSON(map[string]interface{}{"variant": cs.Variant, "deviations": descr, "consensus_calls": len(la), "tx_ok": ok, "tx_failed": failed, "final_app_hash": la[len(la)-1]})
+		res.Sample = sim.MustJSON(map[string]interface{}{"variant": cs.Variant, "deviations": descr, "consensus_calls": len(la), "tx_ok": ok, "tx_failed": failed, "final_app_hash": la[len(la)-1], "history": describeBlocks(h)})
 	}
 	return res
 }
